@@ -545,6 +545,7 @@ theorem region_final {s : St} {a : Nat} (hw : WFSeqs a s.seqs) {items : List Src
       intro j hj; exact (R.nf.range j (by simp only [sgNums, List.mem_flatMap]; exact ⟨y, hy, hj⟩)).1
     obtain ⟨k, cs'⟩ := y
     simp only at hi hyobj hyr
+    clear hy
     induction cs' generalizing k with
     | nil => simp [refsFrom] at hi
     | cons c r ih =>
@@ -555,12 +556,12 @@ theorem region_final {s : St} {a : Nat} (hw : WFSeqs a s.seqs) {items : List Src
         · obtain ⟨ie, h1, _⟩ := R.objs i bs (hyobj i bs (by simp))
           obtain ⟨hm, hn⟩ := findE_some h1
           exact Or.inl (List.mem_map.mpr ⟨ie, hm, hn⟩)
-        · exact ih k hy hi (fun i bs h => hyobj i bs (List.mem_cons_of_mem _ h)) (by simpa [nucCount] using hyr)
+        · exact ih k hi (fun i bs h => hyobj i bs (List.mem_cons_of_mem _ h)) (by simpa [nucCount] using hyr)
       | nuc p =>
         simp only [refsFrom, List.mem_cons] at hi
         rcases hi with rfl | hi
         · exact Or.inr ⟨k, hyr k (by simp [nucCount, List.mem_range'_1]), rfl⟩
-        · refine ih (k + 1) hy hi (fun i bs h => hyobj i bs (List.mem_cons_of_mem _ h)) ?_
+        · refine ih (k + 1) hi (fun i bs h => hyobj i bs (List.mem_cons_of_mem _ h)) ?_
           intro j hj
           apply hyr
           simp only [nucCount, List.mem_range'_1] at hj ⊢
